@@ -63,12 +63,12 @@ func standardPhases(mons []string, suffix int, thorough bool) []Phase {
 		add("S1 n=3 depth 5 {6 gossip pairs,T0,T1,T2}", s1Items("s1:3:0", 5, 2, mons))
 	}
 	// S3: deviation bounded around fair seeds
-	seeds := []string{scStatic3, scStatic4, scSilent4, scSilent5, scLate4, scJoin3, scLeave4, scJoin2, scTwoLeaves, scJoinLeave, scLaggards7, scLaggards4, scRejoin4, scRefused3, scPart4, scPart5, scDups3, scIrrA, scIrrB, scIrrC, scIrrD, scIrrE, scUnknownItx}
+	seeds := []string{scStatic3, scStatic4, scSilent4, scSilent5, scLate4, scJoin3, scLeave4, scJoin2, scTwoLeaves, scJoinLeave, scLaggards7, scLaggards4, scRejoin4, scRefused3, scPart4, scPart5, scDups3, scIrrA, scIrrB, scIrrC, scIrrD, scIrrE, scUnknownItx, "badgernode:1:40:" + scStatic4, "badgernode:0:40:" + scJoin3, "badgernode:2:40:" + scLeave4}
 	var d0 []sched.Item
 	for _, s := range seeds {
 		d0 = append(d0, s3Items(s, 0, nil, nil, mons, suffix)...)
 	}
-	add("S3 d=0 on 23 seeds (static 3/4, silent 4/5, late witness, join 3->4, leave 4->3, join 2->3, two leaves in one block, join+leave in one block, 2 one-way laggards of 7, 1 of 4, leave then re-join, join refused by the application, partitions 2|2 and 3|2 that heal, identical transaction bytes submitted repeatedly at one node and at several nodes, five irregular 200-step schedules with a leave or a join + leave and slow fame elections, signed internal transactions of an unknown type)", d0)
+	add("S3 d=0 on 26 seeds (static 3/4, silent 4/5, late witness, join 3->4, leave 4->3, join 2->3, two leaves in one block, join+leave in one block, 2 one-way laggards of 7, 1 of 4, leave then re-join, join refused by the application, partitions 2|2 and 3|2 that heal, identical transaction bytes submitted repeatedly at one node and at several nodes, five irregular 200-step schedules with a leave or a join + leave and slow fame elections, signed internal transactions of an unknown type, and static4 / join 3->4 / leave 4->3 with one node keeping its store in a Badger database among in-memory nodes)", d0)
 	// S2: seed prefix + exhaustive window + fair suffix
 	w3 := "win:3:-1:" + scStatic3
 	wj := "win:4:-1:" + scJoin3
@@ -89,6 +89,13 @@ func standardPhases(mons []string, suffix int, thorough bool) []Phase {
 			}
 		}
 		add("commit call k=1..8 of node 0/1/2 applied by the application, reply lost (static3 seed)", cf)
+		// an accepted joiner that gossips before its effective round (its first event is sent to a validator, which
+		// builds on it): ancestors before descendants also for events of a creator that is not a validator yet
+		var ej []sched.Item
+		for pos := 12; pos <= 52; pos += map[bool]int{true: 1, false: 2}[thorough] {
+			ej = append(ej, sched.Item{Scenario: fmt.Sprintf("liarjoin:%d:3:0", pos), Mode: "s3", Mons: mons, Suffix: suffix})
+		}
+		add("an accepted joiner's first event is sent to a validator at seed position p=12..52 (before / after its join takes effect)", ej)
 	}
 	if mons[len(mons)-1] == "C10" {
 		// nodes that joined later and did not replay history: a joiner that fast-forwards before / after its own join
